@@ -192,7 +192,7 @@ func (propC06) Run(w *World, st *Stats) *Violation {
 	if len(masks) == 0 {
 		masks = []int{w.Cfg.OptMask}
 	}
-	events := []string{"", "report", "debug"}
+	events := []string{"", "report", "debug", "both"}
 	if w.Cfg.Event != "" {
 		events = []string{w.Cfg.Event}
 	}
